@@ -432,7 +432,7 @@ var commonTrusted = []string{
 	"VTA/CHA call graphs over-approximate dynamic calls (no reflection-based calls into the interpreter)",
 }
 
-func finish(c *Ctx, verifDir string, start time.Time, seed int64, cmdline string) int {
+func finish(c *Ctx, verifDir string, start time.Time, seed int64, cmdline string, extra map[string]interface{}) int {
 	pi := props[c.Prop]
 	known, kerr := loadKnown(filepath.Join(verifDir, "KNOWN_FINDINGS.txt"))
 	if kerr != nil {
@@ -554,6 +554,9 @@ func finish(c *Ctx, verifDir string, start time.Time, seed int64, cmdline string
 			"samples":             samples,
 			"exhaustive":          false,
 		},
+	}
+	for k, v := range extra {
+		ev["coverage"].(map[string]interface{})[k] = v
 	}
 	b, _ := json.MarshalIndent(ev, "", " ")
 	if err := os.WriteFile(filepath.Join(verifDir, "evidence", c.Prop+".json"), b, 0o644); err != nil {
